@@ -42,6 +42,7 @@ CONSTANTS ShapeSet,     \* the family of plan shapes explored (Init picks one)
           MaxRuns,      \* runs of one continuous-check loop (ticks) per process lifetime
           Tolerated,    \* clauses allowed to be false (known findings), normally {}
           FnOut,        \* TRUE: a plugin's outcome is a function of the action alone (also across restarts)
+          Poller,       \* TRUE: a reader polls the stored plan at any time (Status / Plan), emitting R events
           Gen           \* "off" | "full": hist is the history of observable events (scenario generation)
                         \* | "last": hist = <<last event, parity>> (trace conformance, EngineConf.tla)
 
@@ -697,6 +698,25 @@ MFixWait ==
   /\ Silent /\ UNCHANGED <<dur, mreason, dreason, lim, fails, li, am, rn, cl, ch, runs, waiter, wq>> /\ UNCH_M
 
 (* ------------------------------------------------------------------ *)
+(* a polling reader (Workstream.Status / Plan): at any time it reads  *)
+(* the stored record of some object whose stored record differs from  *)
+(* what it saw last (obs.rseen is not kept: the event carries what is *)
+(* stored; Props!C08_Monotone judges the sequence of readings)        *)
+(* ------------------------------------------------------------------ *)
+Poll(o) ==
+  /\ Poller /\ alive /\ pc \notin {"idle", "finished"}
+  /\ obs.dd[o].k \in {"blk", "seq", "act"}
+  /\ Terminal(dur[o].st) /\ obs.rterm[o] = "none"      \* the first time the reader sees o terminal (later readings are checked against it)
+  /\ Emit([ev |-> "R", obj |-> o, st |-> dur[o].st, natt |-> Len(dur[o].atts)])
+  /\ UNCHANGED evars
+\* ... and any later reading of an object it has seen terminal
+PollAgain(o) ==
+  /\ Poller /\ alive /\ pc \notin {"idle", "finished"}
+  /\ obs.dd[o].k \in {"blk", "seq", "act"} /\ obs.rterm[o] # "none" /\ dur[o].st # obs.rterm[o]
+  /\ Emit([ev |-> "R", obj |-> o, st |-> dur[o].st, natt |-> Len(dur[o].atts)])
+  /\ UNCHANGED evars
+
+(* ------------------------------------------------------------------ *)
 Internal == MainStep \/ MFix \/ MFixWait
             \/ (\E q \in DOMAIN wk : WorkerStep(q))
             \/ (\E g \in DOMAIN rn : RunStep(g))
@@ -705,6 +725,7 @@ Internal == MainStep \/ MFix \/ MFixWait
 PluginReturn == \E a \in DOMAIN am : \E out \in (IF KindOf(a) = "act" THEN SeqOutcomes ELSE ChkOutcomes) : APEnd(a, out)
 Done == pc = "finished" /\ UNCHANGED vars
 Next == (alive /\ (Internal \/ PluginReturn)) \/ (~alive /\ NewProcess) \/ Crash \/ Done
+        \/ (\E o \in DOMAIN dur : Poll(o) \/ PollAgain(o))
 Spec == Init /\ [][Next]_vars
 FairSpec == Spec /\ WF_vars(Internal \/ PluginReturn \/ NewProcess)
 
